@@ -104,6 +104,13 @@ func genRespSize(r *core.Rand, win int) int {
 func genC01ConnEdge(r *core.Rand, s *c01Scenario, tier string) {
 	s.PeerIWS = core.Pick(r, 65535, 100000, 1<<20)
 	s.Policy = core.Pick(r, 0, 1, 4)
+	// > 64 KiB must flow: no tiny segments or reads here
+	if s.Net.SegMax > 0 && s.Net.SegMax < 1000 {
+		s.Net.SegMax = 1000
+	}
+	if s.Net.ReadMax > 0 && s.Net.ReadMax < 1000 {
+		s.Net.ReadMax = 0
+	}
 	nb := r.Range(1, 2)
 	left := 65535 + r.Range(-3000, 200)
 	for i := 0; i < nb; i++ {
@@ -275,12 +282,12 @@ func genC01(seed uint64, tier string, oracles string) *c01Scenario {
 			total += n
 		}
 	}
-	limit := 250000
+	limit := netBudget(s.Net, 250000)
 	switch {
 	case minIWS < 100:
-		limit = 2500
+		limit = min(limit, 2500)
 	case minIWS < 5000:
-		limit = 40000
+		limit = min(limit, 40000)
 	}
 	if total > limit {
 		for i := range s.Streams {
